@@ -45,8 +45,10 @@ def gen_class(lang, name, n_pub, n_priv, extras, blank, comment, start_line):
         L.append("  x = 1;")
         if comment:
             L.append("  // a comment line")
+        if comment:
+            L += ["  /* a block comment", "   * with a starred line", "   */"]
         for i in range(n_pub):
-            L += [f"  pub{i}() {{", f"    return {i};", "  }"]
+            L += [f"  pub{i}() {{", f"    return {i}", f"      * 2;", "  }"] if (comment and i == 0) else [f"  pub{i}() {{", f"    return {i};", "  }"]
             if blank:
                 L.append("")
         for i in range(n_priv):
@@ -67,7 +69,8 @@ def gen_class(lang, name, n_pub, n_priv, extras, blank, comment, start_line):
         if comment:
             L.append("    // a comment line")
         for i in range(n_pub):
-            L += [f"    pub fn pub{i}(&self) -> i32 {{", f"        {i}", "    }"]
+            L += [f"    pub fn pub{i}(&self) -> i32 {{", f"        *self.slot.borrow_mut() = {i};", f"        {i}", "    }"] if (comment and i == 0) \
+                else [f"    pub fn pub{i}(&self) -> i32 {{", f"        {i}", "    }"]
             if blank:
                 L.append("")
         for i in range(n_priv):
@@ -78,7 +81,18 @@ def gen_class(lang, name, n_pub, n_priv, extras, blank, comment, start_line):
             L += [f"impl {name} {{", "    pub fn stat() -> i32 {", "        2", "    }", "}"]
             pub += 1
         cmt = "//"
-    loc = sum(1 for s in L if s.strip() and not s.strip().startswith(cmt))
+    loc, in_block = 0, False
+    for raw in L:          # documented: non-blank, non-comment lines (a /* ... */ block is a comment)
+        st = raw.strip()
+        if in_block:
+            in_block = "*/" not in st
+            continue
+        if not st or st.startswith(cmt):
+            continue
+        if cmt == "//" and lang != "rust" and st.startswith("/*"):
+            in_block = "*/" not in st
+            continue
+        loc += 1
     return L, pub, loc, start_line
 
 
